@@ -1,19 +1,594 @@
-//! C19 — handshake and invitation table (filled in below)
-use dvcommon::Stats;
-use std::collections::HashMap;
+//! C19 — the REAL `LocalPeerService::initialise_connection` against a scripted remote side, the REAL
+//! `PeerManager` token table (create / accept / lookup / consume invitations), the REAL `MeetingSecret`.
+//!
+//!   case id=<n> prop=C19 app=<a>
+//!   hs conn=<n> local=<k> tt=allowed exp=<k> | tt=owned inv=<n> | tt=invite inv=<n> signer=<k> app=<a> signapp=<a>
+//!      remote=honest key=<k> | wrongkey key=<k> signer2=<k> | replay key=<k> from=<conn> | badrow key=<k> how=<h> | noanswer how=<h>
+//!        -> res=<true|false|err> key=<k|-> ready=<0|1> events=<Ready|ReadyFingerprint|-> msgs=<connected:k,accepted:k|->
+//!   pm-invite n=<n>                              -> ok            (real create_invite)
+//!   pm-lookup tok=inv:<n>|peer:<k> key=<k>       -> allowed <k> | owned <n> | invite <n> | none   (real get_token_type)
+//!   pm-accepted inv=<n> peer=<k>                 -> ok | no-token (real get_token_type + invite_accepted)
+//!   pm-accept src=forged id=<n> app=<a> signer=<k> | src=bytes hex=<..>   -> ok | err:app | err:decode (real accept_invite)
+//!   tok-sym a=<n> b=<n>                          -> sym 1|0       (real MeetingSecret::token both ways)
+//! identities: key k = the verifying key derived from `c08::secret_of(k)`; 1 is the instance itself.
+use crate::c08::{key_of, secret_of, APP, MODEL, OWN};
+use discret::verif_hooks::configuration::Configuration;
+use discret::verif_hooks::database::graph_database::GraphDatabaseService;
+use discret::verif_hooks::database::node::Node;
+use discret::verif_hooks::database::system_entities::{AllowedPeer, Invite, OwnedInvite, Peer};
+use discret::verif_hooks::discret::{DiscretParams, DiscretServices};
+use discret::verif_hooks::event_service::EventService;
+use discret::verif_hooks::network::endpoint::DiscretEndpoint;
+use discret::verif_hooks::network::peer_manager::{PeerManager, TokenType};
+use discret::verif_hooks::network::ConnectionInfo;
+use discret::verif_hooks::peer_connection_service::{PeerConnectionMessage, PeerConnectionService};
+use discret::verif_hooks::security::{
+    base64_encode, derive_key, Ed25519SigningKey, HardwareFingerprint, MeetingSecret, MeetingToken, SigningKey, Uid,
+};
+use discret::verif_hooks::signature_verification_service::SignatureVerificationService;
+use discret::verif_hooks::synchronisation::peer_inbound_service::{LocalPeerService, QueryService};
+use discret::verif_hooks::synchronisation::{Answer, Error as SyncError, IdentityAnswer, Query, QueryProtocol, RemoteEvent};
+use dvcommon::{Gen, Stats};
+use std::collections::{HashMap, HashSet};
+use std::io::{BufWriter, Write};
 use std::path::PathBuf;
+use std::sync::atomic::{AtomicBool, Ordering};
+use std::sync::Arc;
+use tokio::sync::{mpsc, Mutex};
+
 pub type Kv = HashMap<String, String>;
-pub struct Case {}
+const NKEYS: u64 = 5;
+
+fn get_u(kv: &Kv, k: &str) -> Option<u64> {
+    kv.get(k).and_then(|v| v.parse().ok())
+}
+fn signing_key_of(k: u64) -> Ed25519SigningKey {
+    Ed25519SigningKey::create_from(&derive_key(&format!("{} SIGNING_KEY", APP), &secret_of(k)))
+}
+fn meeting_secret_of(k: u64) -> MeetingSecret {
+    MeetingSecret::new(derive_key("dv meeting", &secret_of(k)))
+}
+fn ident_of(key: &[u8]) -> String {
+    (1..=NKEYS).find(|k| key_of(*k) == key).map(|k| k.to_string()).unwrap_or("?".into())
+}
+fn uid_n(n: u64) -> Uid {
+    let mut u = [0x77u8; 16];
+    u[..8].copy_from_slice(&n.to_be_bytes());
+    u
+}
+fn app_name(a: u64, own: u64) -> String {
+    if a == own {
+        APP.to_string()
+    } else {
+        format!("other app {}", a)
+    }
+}
+/// a valid `sys.Peer` row for identity k (what a running instance of k would present)
+fn peer_row(k: u64) -> Node {
+    let public = meeting_secret_of(k).public_key();
+    let mut n = Peer::create(uid_n(1000 + k), base64_encode(public.as_bytes()));
+    n.sign(&signing_key_of(k)).unwrap();
+    n
+}
+
+pub struct Case {
+    folder: PathBuf,
+    svc: GraphDatabaseService,
+    own_key: Vec<u8>,
+    pm: Option<PeerManager>,
+    _pm_rx: Option<mpsc::Receiver<PeerConnectionMessage>>,
+    app: u64,
+    invites: HashMap<u64, Uid>,
+    invite_no: HashMap<Uid, u64>,
+    recorded: HashMap<u64, Vec<u8>>,
+    tokens_seen: HashSet<MeetingToken>,
+    tokens_total: u64,
+}
+
 impl Case {
-    pub async fn start(_folder: PathBuf, _kv: &Kv) -> Case {
-        Case {}
+    pub async fn start(folder: PathBuf, kv: &Kv) -> Case {
+        let _ = std::fs::remove_dir_all(&folder);
+        std::fs::create_dir_all(&folder).unwrap();
+        let mut c = Configuration::default();
+        c.parallelism = 1;
+        c.enable_multicast = false;
+        c.enable_beacons = false;
+        let events = EventService::new();
+        let public = meeting_secret_of(OWN).public_key();
+        let (svc, key, private_room) =
+            GraphDatabaseService::start(APP, MODEL, &secret_of(OWN), public.as_bytes(), folder.clone(), &c, events.clone())
+                .await
+                .expect("instance");
+        let params = DiscretParams {
+            app_key: APP.to_string(),
+            verifying_key: key.clone(),
+            private_room_id: private_room,
+            hardware_fingerprint: HardwareFingerprint { id: [3u8; 16], name: "dv".into() },
+            configuration: c.clone(),
+        };
+        let services = DiscretServices {
+            events,
+            database: svc.clone(),
+            signature_verification: SignatureVerificationService::start(1),
+        };
+        // the real table; its endpoint only binds a local UDP socket (nothing is ever connected)
+        let (ptx, prx) = mpsc::channel::<PeerConnectionMessage>(64);
+        let pm = match DiscretEndpoint::start(PeerConnectionService { sender: ptx }, 1 << 20, &key).await {
+            Ok(endpoint) => PeerManager::new(&params, &services, endpoint, None, meeting_secret_of(OWN)).await.ok(),
+            Err(_) => None,
+        };
+        Case {
+            folder,
+            svc,
+            own_key: key,
+            pm,
+            _pm_rx: Some(prx),
+            app: get_u(kv, "app").unwrap_or(1),
+            invites: HashMap::new(),
+            invite_no: HashMap::new(),
+            recorded: HashMap::new(),
+            tokens_seen: HashSet::new(),
+            tokens_total: 0,
+        }
     }
-    pub async fn close(self) {}
-    pub async fn op(&mut self, _kind: &str, _kv: &Kv, _stats: &mut Stats) -> String {
-        "bad-op".into()
+    pub async fn close(self) {
+        let folder = self.folder.clone();
+        drop(self);
+        let _ = std::fs::remove_dir_all(folder);
+    }
+
+    fn token_type(&self, kv: &Kv) -> Option<TokenType> {
+        Some(match kv.get("tt")?.as_str() {
+            "allowed" => {
+                let e = get_u(kv, "exp")?;
+                TokenType::AllowedPeer(AllowedPeer {
+                    peer: Peer { id: base64_encode(&uid_n(1000 + e)), verifying_key: base64_encode(&key_of(e)) },
+                    meeting_token: String::new(),
+                })
+            }
+            "owned" => TokenType::OwnedInvite(OwnedInvite { id: uid_n(get_u(kv, "inv")?), room: None, authorisation: None }),
+            "invite" => {
+                let (n, k, a, sa) = (get_u(kv, "inv")?, get_u(kv, "signer")?, get_u(kv, "app")?, get_u(kv, "signapp")?);
+                // the signature is what the inviter's instance produces: its key over Invite::hash()
+                let signed = Invite { invite_id: uid_n(n), application: app_name(sa, self.app), invite_sign: vec![] };
+                let sig = signing_key_of(k).sign(&signed.hash());
+                TokenType::Invite(Invite { invite_id: uid_n(n), application: app_name(a, self.app), invite_sign: sig })
+            }
+            _ => return None,
+        })
+    }
+
+    async fn handshake(&mut self, kv: &Kv) -> String {
+        let (conn, local) = match (get_u(kv, "conn"), get_u(kv, "local")) {
+            (Some(c), Some(l)) => (c, l),
+            _ => return "bad-op".into(),
+        };
+        let tt = match self.token_type(kv) {
+            Some(t) => t,
+            None => return "bad-op".into(),
+        };
+        #[derive(Clone)]
+        enum Script {
+            Answer { row: Node, signer: Option<u64>, fixed_sig: Option<Vec<u8>> },
+            ErrorAnswer,
+            Closed,
+            Garbage,
+        }
+        let key = get_u(kv, "key");
+        let script = match (kv.get("remote").map(|s| s.as_str()), key) {
+            (Some("honest"), Some(k)) => Script::Answer { row: peer_row(k), signer: Some(k), fixed_sig: None },
+            (Some("wrongkey"), Some(k)) => match get_u(kv, "signer2") {
+                Some(k2) => Script::Answer { row: peer_row(k), signer: Some(k2), fixed_sig: None },
+                None => return "bad-op".into(),
+            },
+            (Some("replay"), Some(k)) => match get_u(kv, "from").and_then(|m| self.recorded.get(&m)) {
+                Some(sig) => Script::Answer { row: peer_row(k), signer: None, fixed_sig: Some(sig.clone()) },
+                None => return "bad-op".into(),
+            },
+            (Some("badrow"), Some(k)) => {
+                let mut row = peer_row(k);
+                match kv.get("how").map(|s| s.as_str()) {
+                    Some("room") => {
+                        row.room_id = Some(uid_n(1));
+                        row.sign(&signing_key_of(k)).unwrap();
+                    }
+                    Some("entity") => {
+                        row._entity = "0.9".into();
+                        row.sign(&signing_key_of(k)).unwrap();
+                    }
+                    Some("rowsig") => row._signature[5] ^= 1,
+                    Some("nopub") => {
+                        row._json = Some("{\"32\":\"x\"}".into());
+                        row.sign(&signing_key_of(k)).unwrap();
+                    }
+                    _ => return "bad-op".into(),
+                }
+                Script::Answer { row, signer: Some(k), fixed_sig: None }
+            }
+            (Some("noanswer"), _) => match kv.get("how").map(|s| s.as_str()) {
+                Some("error") => Script::ErrorAnswer,
+                Some("closed") => Script::Closed,
+                Some("garbage") => Script::Garbage,
+                _ => return "bad-op".into(),
+            },
+            _ => return "bad-op".into(),
+        };
+        let (qtx, mut qrx) = mpsc::channel::<QueryProtocol>(4);
+        let (atx, arx) = mpsc::channel::<Answer>(4);
+        let qs = QueryService::start(qtx, arx);
+        let (ptx, mut prx) = mpsc::channel::<PeerConnectionMessage>(8);
+        let (etx, mut erx) = mpsc::channel::<RemoteEvent>(8);
+        let bound = Arc::new(Mutex::new(Vec::<u8>::new()));
+        let ready = Arc::new(AtomicBool::new(true));
+        let (sig_tx, mut sig_rx) = mpsc::channel::<Vec<u8>>(1);
+        let sc = script.clone();
+        // the scripted remote side
+        let remote = tokio::spawn(async move {
+            if let Some(q) = qrx.recv().await {
+                let challenge = match q.query {
+                    Query::ProveIdentity(c) => c,
+                    _ => vec![],
+                };
+                let answer = match sc {
+                    Script::Answer { row, signer, fixed_sig } => {
+                        let sig = match (signer, fixed_sig) {
+                            (Some(k), _) => signing_key_of(k).sign(&challenge),
+                            (None, Some(s)) => s,
+                            _ => vec![],
+                        };
+                        let _ = sig_tx.send(sig.clone()).await;
+                        let ia = IdentityAnswer { peer: row, chall_signature: sig };
+                        Some(Answer { id: q.id, success: true, complete: true, serialized: bincode::serialize(&ia).unwrap() })
+                    }
+                    Script::ErrorAnswer => Some(Answer {
+                        id: q.id,
+                        success: false,
+                        complete: true,
+                        serialized: bincode::serialize(&SyncError::Technical).unwrap(),
+                    }),
+                    Script::Garbage => Some(Answer { id: q.id, success: true, complete: true, serialized: vec![0xFF; 7] }),
+                    Script::Closed => None,
+                };
+                match answer {
+                    Some(a) => {
+                        let _ = atx.send(a).await;
+                        // keep the channel open until the local side is done
+                        tokio::time::sleep(std::time::Duration::from_secs(30)).await;
+                    }
+                    None => drop(atx),
+                }
+            }
+        });
+        let info = ConnectionInfo {
+            endpoint_id: uid_n(1),
+            remote_id: uid_n(2),
+            conn_id: uid_n(conn),
+            meeting_token: [0u8; 7],
+            peer_verifying_key: vec![],
+        };
+        let res = LocalPeerService::initialise_connection(
+            &info,
+            &key_of(local),
+            tt,
+            &ready,
+            &qs,
+            &bound,
+            &PeerConnectionService { sender: ptx },
+            &etx,
+        )
+        .await;
+        remote.abort();
+        if let (Some("honest"), Ok(sig)) = (kv.get("remote").map(|s| s.as_str()), sig_rx.try_recv()) {
+            self.recorded.insert(conn, sig);
+        }
+        let res_s = match res {
+            Ok(true) => "true",
+            Ok(false) => "false",
+            Err(_) => "err",
+        };
+        let b = bound.lock().await.clone();
+        let key_s = if b.is_empty() { "-".to_string() } else { ident_of(&b) };
+        let mut ev: Vec<&str> = vec![];
+        while let Ok(e) = erx.try_recv() {
+            ev.push(match e {
+                RemoteEvent::Ready => "Ready",
+                RemoteEvent::ReadyFingerprint => "ReadyFingerprint",
+                _ => "?",
+            });
+        }
+        let mut ms: Vec<String> = vec![];
+        while let Ok(m) = prx.try_recv() {
+            ms.push(match m {
+                PeerConnectionMessage::PeerConnected(k, _) => format!("connected:{}", ident_of(&k)),
+                PeerConnectionMessage::InviteAccepted(_, peer) => format!("accepted:{}", ident_of(&peer.verifying_key)),
+                PeerConnectionMessage::PeerDisconnected(..) => "disconnected".into(),
+                _ => "?".into(),
+            });
+        }
+        format!(
+            "res={} key={} ready={} events={} msgs={}",
+            res_s,
+            key_s,
+            if ready.load(Ordering::Relaxed) { 1 } else { 0 },
+            if ev.is_empty() { "-".to_string() } else { ev.join(",") },
+            if ms.is_empty() { "-".to_string() } else { ms.join(",") }
+        )
+    }
+
+    fn token_of(&mut self, kv: &Kv) -> Option<MeetingToken> {
+        let (what, n) = kv.get("tok")?.split_once(':')?;
+        let n: u64 = n.parse().ok()?;
+        let t = match what {
+            // peer_manager.rs DERIVE_STRING = "P"
+            "inv" => MeetingSecret::derive_token("P", &self.invites.get(&n).copied().unwrap_or_else(|| uid_n(n))),
+            "peer" => meeting_secret_of(OWN).token(&meeting_secret_of(n).public_key()),
+            _ => return None,
+        };
+        self.tokens_total += 1;
+        self.tokens_seen.insert(t);
+        Some(t)
+    }
+
+    pub async fn op(&mut self, kind: &str, kv: &Kv, stats: &mut Stats) -> String {
+        let _ = (&self.svc, &self.own_key);
+        match kind {
+            "hs" => self.handshake(kv).await,
+            "tok-sym" => match (get_u(kv, "a"), get_u(kv, "b")) {
+                (Some(a), Some(b)) => {
+                    let (sa, sb) = (MeetingSecret::new([a as u8; 32]), MeetingSecret::new([b as u8; 32]));
+                    let (ta, tb) = (sa.token(&sb.public_key()), sb.token(&sa.public_key()));
+                    stats.inc("tokens.sampled");
+                    if !self.tokens_seen.insert(ta) && a != b {
+                        stats.inc("tokens.collisions-or-repeats");
+                    }
+                    format!("sym {}", if ta == tb { 1 } else { 0 })
+                }
+                _ => "bad-op".into(),
+            },
+            "pm-invite" | "pm-lookup" | "pm-accepted" | "pm-accept" => {
+                if self.pm.is_none() {
+                    return "err:no-peer-manager".into();
+                }
+                match kind {
+                    "pm-invite" => {
+                        let n = match get_u(kv, "n") {
+                            Some(n) if !self.invites.contains_key(&n) => n,
+                            _ => return "bad-op".into(),
+                        };
+                        match self.pm.as_mut().unwrap().create_invite(None).await {
+                            Ok(bytes) => match bincode::deserialize::<Invite>(&bytes) {
+                                Ok(inv) => {
+                                    self.invites.insert(n, inv.invite_id);
+                                    self.invite_no.insert(inv.invite_id, n);
+                                    "ok".into()
+                                }
+                                Err(_) => "err:decode".into(),
+                            },
+                            Err(_) => "err:create".into(),
+                        }
+                    }
+                    "pm-lookup" => {
+                        let (tok, k) = match (self.token_of(kv), get_u(kv, "key")) {
+                            (Some(t), Some(k)) => (t, k),
+                            _ => return "bad-op".into(),
+                        };
+                        match self.pm.as_ref().unwrap().get_token_type(&tok, &key_of(k)) {
+                            Ok(TokenType::AllowedPeer(p)) => {
+                                let key = discret::verif_hooks::security::base64_decode(p.peer.verifying_key.as_bytes())
+                                    .unwrap_or_default();
+                                format!("allowed {}", ident_of(&key))
+                            }
+                            Ok(TokenType::OwnedInvite(o)) => {
+                                format!("owned {}", self.invite_no.get(&o.id).map(|n| n.to_string()).unwrap_or("?".into()))
+                            }
+                            Ok(TokenType::Invite(i)) => {
+                                format!("invite {}", self.invite_no.get(&i.invite_id).map(|n| n.to_string()).unwrap_or("?".into()))
+                            }
+                            Err(_) => "none".into(),
+                        }
+                    }
+                    "pm-accepted" => {
+                        let (n, k) = match (get_u(kv, "inv"), get_u(kv, "peer")) {
+                            (Some(n), Some(k)) => (n, k),
+                            _ => return "bad-op".into(),
+                        };
+                        let id = self.invites.get(&n).copied().unwrap_or_else(|| uid_n(n));
+                        let tok = MeetingSecret::derive_token("P", &id);
+                        let pm = self.pm.as_mut().unwrap();
+                        match pm.get_token_type(&tok, &key_of(k)) {
+                            Ok(tt @ (TokenType::OwnedInvite(_) | TokenType::Invite(_))) => {
+                                match pm.invite_accepted(tt, peer_row(k)).await {
+                                    Ok(()) => "ok".into(),
+                                    Err(_) => "err:accepted".into(),
+                                }
+                            }
+                            Ok(_) => "bad-op".into(),
+                            Err(_) => "no-token".into(),
+                        }
+                    }
+                    _ => {
+                        let bytes = match kv.get("src").map(|s| s.as_str()) {
+                            Some("forged") => match (get_u(kv, "id"), get_u(kv, "app"), get_u(kv, "signer")) {
+                                (Some(n), Some(a), Some(k)) if !self.invites.contains_key(&n) => {
+                                    let mut inv = Invite { invite_id: uid_n(n), application: app_name(a, self.app), invite_sign: vec![] };
+                                    inv.invite_sign = signing_key_of(k).sign(&inv.hash());
+                                    if a == self.app {
+                                        self.invites.insert(n, inv.invite_id);
+                                        self.invite_no.insert(inv.invite_id, n);
+                                    }
+                                    bincode::serialize(&inv).unwrap()
+                                }
+                                _ => return "bad-op".into(),
+                            },
+                            Some("bytes") => match kv.get("hex") {
+                                Some(h) => {
+                                    let mut v = vec![];
+                                    let b = h.as_bytes();
+                                    for i in (0..b.len() / 2 * 2).step_by(2) {
+                                        v.push(u8::from_str_radix(&h[i..i + 2], 16).unwrap_or(0));
+                                    }
+                                    v
+                                }
+                                None => return "bad-op".into(),
+                            },
+                            _ => return "bad-op".into(),
+                        };
+                        match self.pm.as_mut().unwrap().accept_invite(&bytes).await {
+                            Ok(()) => "ok".into(),
+                            Err(discret::Error::InvalidInvite(_)) => "err:app".into(),
+                            Err(discret::Error::Bincode(_)) => "err:decode".into(),
+                            Err(_) => "err:other".into(),
+                        }
+                    }
+                }
+            }
+            _ => "bad-op".into(),
+        }
     }
 }
-pub fn enumerate(_out: &str) -> u64 {
-    0
+
+// ------------------------------------------------------------------------------------------ generators
+
+const REMOTES: &[&str] = &[
+    "remote=honest key=2",
+    "remote=honest key=3",
+    "remote=honest key=1",
+    "remote=wrongkey key=2 signer2=3",
+    "remote=wrongkey key=3 signer2=2",
+    "remote=replay key=2 from=0",
+    "remote=badrow key=2 how=room",
+    "remote=badrow key=2 how=entity",
+    "remote=badrow key=2 how=rowsig",
+    "remote=badrow key=2 how=nopub",
+    "remote=noanswer how=error",
+    "remote=noanswer how=closed",
+    "remote=noanswer how=garbage",
+];
+const TTS: &[&str] = &[
+    "tt=allowed exp=2",
+    "tt=allowed exp=3",
+    "tt=allowed exp=1",
+    "tt=owned inv=7",
+    "tt=invite inv=8 signer=2 app=1 signapp=1",
+    "tt=invite inv=8 signer=3 app=1 signapp=1",
+    "tt=invite inv=8 signer=2 app=1 signapp=2",
+    "tt=invite inv=8 signer=2 app=2 signapp=2",
+];
+
+/// every token type × every remote behaviour × local key, and the invitation reuse patterns on the table
+pub fn enumerate(out: &str) -> u64 {
+    let mut w = BufWriter::new(std::fs::File::create(out).unwrap());
+    let mut id = 0u64;
+    for tt in TTS {
+        writeln!(w, "case id={} prop=C19 app=1", id).unwrap();
+        id += 1;
+        // connection 0 records an honest answer of key 2 for the replays
+        writeln!(w, "hs conn=0 local=1 tt=allowed exp=2 remote=honest key=2").unwrap();
+        let mut conn = 1;
+        for local in [1, 4] {
+            for r in REMOTES {
+                writeln!(w, "hs conn={} local={} {} {}", conn, local, tt, r).unwrap();
+                conn += 1;
+            }
+        }
+    }
+    // invitation reuse patterns
+    let patterns: &[&[&str]] = &[
+        &["pm-invite n=5", "pm-lookup tok=inv:5 key=2", "pm-accepted inv=5 peer=2", "pm-lookup tok=inv:5 key=3",
+          "pm-lookup tok=peer:2 key=2", "pm-lookup tok=peer:2 key=3", "pm-accepted inv=5 peer=3", "pm-lookup tok=peer:3 key=3"],
+        &["pm-invite n=5", "pm-invite n=6", "pm-accepted inv=6 peer=2", "pm-lookup tok=inv:5 key=2", "pm-lookup tok=inv:6 key=2",
+          "pm-accepted inv=5 peer=2", "pm-lookup tok=inv:5 key=4"],
+        &["pm-lookup tok=inv:9 key=2", "pm-accepted inv=9 peer=2", "pm-lookup tok=peer:2 key=2"],
+        &["pm-accept src=forged id=11 app=1 signer=2", "pm-lookup tok=inv:11 key=2", "pm-accepted inv=11 peer=2",
+          "pm-lookup tok=inv:11 key=2", "pm-lookup tok=peer:2 key=2"],
+        &["pm-accept src=forged id=12 app=2 signer=2", "pm-lookup tok=inv:12 key=2", "pm-accept src=bytes hex=", "pm-accept src=bytes hex=0102",
+          "pm-accept src=bytes hex=7777777777777777777777777777777700000000000000f0"],
+        &["tok-sym a=1 b=2", "tok-sym a=2 b=1", "tok-sym a=3 b=3", "tok-sym a=9 b=200", "tok-sym a=0 b=255"],
+    ];
+    for p in patterns {
+        writeln!(w, "case id={} prop=C19 app=1", id).unwrap();
+        id += 1;
+        for l in *p {
+            writeln!(w, "{}", l).unwrap();
+        }
+    }
+    w.flush().unwrap();
+    id
 }
-pub fn gen(_seed: u64, _n: usize, _out: &str) {}
+
+pub fn gen(seed: u64, n: usize, out: &str) {
+    let mut g = Gen::new(seed ^ 0xc19);
+    let mut w = BufWriter::new(std::fs::File::create(out).unwrap());
+    for id in 0..n {
+        writeln!(w, "case id={} prop=C19 app=1", id).unwrap();
+        let mut conn = 0;
+        let mut honest: Vec<(u64, u64)> = vec![];
+        let mut invites: Vec<u64> = vec![];
+        let mut next_inv = 20u64;
+        for _ in 0..(6 + g.below(20)) {
+            match g.weighted(&[10, 2, 4, 3, 2, 3]) {
+                0 => {
+                    let k = 1 + g.below(4) as u64;
+                    let tt = match g.below(4) {
+                        0 | 1 => format!("tt=allowed exp={}", 1 + g.below(4)),
+                        2 => format!("tt=owned inv={}", 1 + g.below(9)),
+                        _ => {
+                            let a = 1 + g.below(2);
+                            format!("tt=invite inv={} signer={} app={} signapp={}", 1 + g.below(9), 1 + g.below(4), a, if g.chance(4, 5) { a } else { 3 - a })
+                        }
+                    };
+                    let remote = match g.below(9) {
+                        0 | 1 | 2 | 3 => {
+                            honest.push((conn, k));
+                            format!("remote=honest key={}", k)
+                        }
+                        4 => format!("remote=wrongkey key={} signer2={}", k, 1 + (k % 4)),
+                        5 if !honest.is_empty() => {
+                            let (c, hk) = *g.pick(&honest);
+                            format!("remote=replay key={} from={}", if g.chance(3, 4) { hk } else { k }, c)
+                        }
+                        6 => format!("remote=badrow key={} how={}", k, g.pick(&["room", "entity", "rowsig", "nopub"])),
+                        _ => format!("remote=noanswer how={}", g.pick(&["error", "closed", "garbage"])),
+                    };
+                    writeln!(w, "hs conn={} local={} {} {}", conn, if g.chance(3, 4) { 1 } else { 1 + g.below(4) }, tt, remote).unwrap();
+                    conn += 1;
+                }
+                1 => {
+                    writeln!(w, "pm-invite n={}", next_inv).unwrap();
+                    invites.push(next_inv);
+                    next_inv += 1;
+                }
+                2 => {
+                    let tok = if !invites.is_empty() && g.chance(2, 3) {
+                        format!("inv:{}", g.pick(&invites))
+                    } else if g.chance(1, 2) {
+                        format!("peer:{}", 2 + g.below(3))
+                    } else {
+                        format!("inv:{}", 90 + g.below(3))
+                    };
+                    writeln!(w, "pm-lookup tok={} key={}", tok, 2 + g.below(3)).unwrap();
+                }
+                3 if !invites.is_empty() => {
+                    writeln!(w, "pm-accepted inv={} peer={}", g.pick(&invites), 2 + g.below(3)).unwrap();
+                }
+                4 => {
+                    if g.chance(2, 3) {
+                        let a = if g.chance(1, 2) { 1 } else { 2 };
+                        writeln!(w, "pm-accept src=forged id={} app={} signer={}", next_inv, a, 2 + g.below(3)).unwrap();
+                        if a == 1 {
+                            invites.push(next_inv);
+                        }
+                        next_inv += 1;
+                    } else {
+                        let len = g.below(15);
+                        let hex: String = (0..len).map(|_| format!("{:02x}", g.below(256))).collect();
+                        writeln!(w, "pm-accept src=bytes hex={}", hex).unwrap();
+                    }
+                }
+                5 => writeln!(w, "tok-sym a={} b={}", g.below(40), g.below(40)).unwrap(),
+                _ => {}
+            }
+        }
+    }
+    w.flush().unwrap();
+}
